@@ -281,6 +281,15 @@ PreludeOps ==
                             <<addres, addset, ann("a1", txt(0, 1), <<e("k1", "v1"), e("k1", "v2"), e("k1", "v3")>>),
                               ann("a2", txt(1, 2), <<e("k1", "v4"), e("k2", "v1"), e("k1", "v5")>>),
                               ann("a3", txt(0, 2), <<e("k1", "v2"), e("k1", "v5")>>)>>
+         \* 20: complex selectors of every flavour (relative annotation parts, text parts, resource / dataset / key parts)
+         [] Prelude = 20 -> LET t(b, e) == TB("Text", ById("r1"), NoRef, Off("B", b, "B", e)) IN
+                            <<[ev |-> "AddResource", a |-> [id |-> "r1", text |-> <<11, 12, 13, 14, 21>>]], addset,
+                              ann("a1", t(0, 3), d1), ann("a2", t(1, 4), d2), ann("a3", t(2, 5), <<>>),
+                              ann("c1", Complex("Multi", <<TB("Ann", ById("a1"), NoRef, Off("B", 1, "B", 2)), TB("Ann", ById("a2"), NoRef, Off("B", 0, "E", 0))>>), <<>>),
+                              ann("c2", Complex("Composite", <<t(0, 1), t(2, 3)>>), d1),
+                              ann("c3", Complex("Directional", <<TB("Res", ById("r1"), NoRef, NoOffset), TB("Set", ById("s1"), NoRef, NoOffset),
+                                                                 TB("Key", ById("s1"), ById("k1"), NoOffset), TB("Ann", ById("a3"), NoRef, NoOffset)>>), <<>>),
+                              ann("c4", Complex("Directional", <<TB("Ann", ById("a3"), NoRef, Off("E", -2, "E", -1)), t(4, 5), TB("Ann", ById("a1"), NoRef, NoOffset)>>), d2)>>
          \* 6: metadata annotations on keys/data/sets and annotations on annotations (chain + relative offset)
          [] OTHER -> <<addres, addset, ann("a1", txt(0, 2), d1),
                        ann("", TB("Key", ById("s1"), ById("k1"), NoOffset), <<>>),
@@ -595,6 +604,8 @@ LoadOps ==
     \cup {L("csv", p, 1, o, 0) : p \in {"annotations", "manifest", "dataset"}, o \in {"empty", "delete_file"}}
     \cup {L("csv", p, 1, "bitflip", a) : p \in {"annotations", "dataset", "manifest"}, a \in 0..9}
     \cup {L("csv", "annotations", 1, "replace", a) : a \in 10..17}
+    \* one ';'-separated part less (or more) in one column of every row of the annotations file
+    \cup {L("csv", "annotations", 1, o, a) : o \in {"trimcol", "growcol"}, a \in 0..9}
 
 \* C10: data search by set / key / value test, through the store and through the dataset
 FindOps == {RO("FindData", [set |-> sk[1], key |-> sk[2], op |-> ov[1], v |-> ov[2], via |-> via]) :
